@@ -70,9 +70,9 @@ def enum_part(p, part, nparts, tier):
                                 host.table[(wb.sha, 'other')] = 'SUCCESSFUL'
                         base = SettingsDict({
                             'build_key': key, 'robot': 'robot',
-                            'pr_author_options': {'alice': {
-                                'bypass_build_status': True}}
-                            if byp == 'author' else {},
+                            'pr_author_options': core.author_options(
+                                'alice', ['bypass_build_status']
+                                if byp == 'author' else []),
                             'repository_host': 'mock',
                             'repository_owner': 'o', 'repository_slug': 's',
                             'pull_request_base_url': 'http://h/{pr_id}'})
